@@ -86,6 +86,25 @@ def run(chk):
                       f"two's-complement limits of this type are {'misread' if r[0] == 'return' else 'silently dropped (build_variable swallows the ValueError)'}")
     sh = repo.func(E, "_signed_int_from_hex", "C08.R3")
     fsh = ff_for(chk, sh, "C08.R3")
+    from .common import partial_eval as _pe
+    tc_bad = tc_unknown = None
+    n_tc = 0
+    for bits_ in (8, 16, 24, 32, 40, 48, 56, 64):
+        for raw_ in (0, 1, (1 << bits_ - 1) - 1, 1 << bits_ - 1, (1 << bits_ - 1) + 1, (1 << bits_) - 1):
+            want_ = raw_ - (1 << bits_) if raw_ >= 1 << bits_ - 1 else raw_
+            for text_ in (hex(raw_), hex(raw_).upper().replace("0X", "0x"), str(raw_)):
+                r_ = _pe(folder, sh.node, sh.mod, None, {"hex_str": text_, "bit_length": bits_})
+                if r_[0] == "unknown":
+                    tc_unknown = r_[1]
+                    break
+                n_tc += 1
+                if r_ != ("return", want_):
+                    tc_bad = f"`{text_}` as a {bits_}-bit two's-complement number gives {r_[1]!r}; expected {want_}"
+                    break
+            if tc_bad or tc_unknown:
+                break
+        if tc_bad or tc_unknown:
+            break
     rets = [n for n in own_nodes(sh.node) if isinstance(n, ast.Return)]
     neg = [r for r in rets if fsh.is_form(r.value, "number - (1 << bit_length)", subst=False)]
     pos = [r for r in rets if src(r.value) == "number"]
@@ -93,7 +112,11 @@ def run(chk):
     if ok:
         g = [fsh.norm(e) for e, p in fsh.facts_at(neg[0]) if p]
         ok = any(x in (fsh.canon("int(hex_str, 0) > (1 << bit_length - 1) - 1"), fsh.canon("number > (1 << bit_length - 1) - 1"), fsh.canon("number >= 1 << bit_length - 1")) for x in g)
-    chk.check(ok, "R3", f"{E}:_signed_int_from_hex | two's complement", sh.loc(), "not `number - 2**bits if number > 2**(bits-1) - 1 else number`")
+    if tc_unknown is None:
+        # decided by specialisation for the boundary values of every width; the shape of the code does not matter then
+        chk.check(tc_bad is None, "R3", f"{E}:_signed_int_from_hex | two's complement", sh.loc(), tc_bad or "", f"specialised for {n_tc} (width, text) pairs")
+    else:
+        chk.check(ok, "R3", f"{E}:_signed_int_from_hex | two's complement", sh.loc(), "not `number - 2**bits if number > 2**(bits-1) - 1 else number`")
     bv = repo.func(E, "build_variable", "C08.R3")
     fb = ff_for(chk, bv, "C08.R3")
     for attr, key in (("min", "LowLimit"), ("max", "HighLimit")):
@@ -177,28 +200,10 @@ def run(chk):
     # ------------------------------------------------------------------ R7 $NODEID
     cv = repo.func(E, "_convert_variable", "C08.R7")
     fcv = ff_for(chk, cv, "C08.R7")
-    subs = [c for c in ast.walk(cv.node) if isinstance(c, ast.Call) and dotted(c.func) == "re.sub"]
-    if not subs:
-        chk.notes.append("C08.R7: no re.sub in _convert_variable; decided by specialisation only")
-    for c in subs:
-        p = folder.try_fold(c.args[0], sc, None)
-        ok = False
-        if isinstance(p, str):
-            try:
-                rx = re.compile(p)
-                ok = all(rx.sub("", s_) == want for s_, want in (("$NODEID+0X180", "0X180"), ("0X180+$NODEID", "0X180"), ("$NODEID", ""), ("0X180", "0X180")))
-            except re.error:
-                ok = False
-        chk.check(ok, "R7", f"{E}:_convert_variable | $NODEID in both orders", cv.loc(c), f"pattern {p!r} does not strip `$NODEID+` and `+$NODEID`")
-        st = fcv.stmt_of(c)
-        g = [(src(e), p_) for e, p_ in fcv.facts_at(st)]
-        chk.check(("'$NODEID' in value", True) in g and ("node_id is not None", True) in g, "R7", f"{E}:_convert_variable | offset added when relative", cv.loc(c), f"{g}")
-        chk.check(isinstance(st, ast.Return) and fcv.is_form(st.value, "int(re.sub(PAT, '', value), 0) + node_id".replace("PAT", repr(p)), subst=False), "R7",
-                  f"{E}:_convert_variable | value = offset + node id", cv.loc(c), src(st))
     from .common import partial_eval
     u32 = O.DATA_TYPES["UNSIGNED32"][0]
     probes = [("$NODEID+0x180", 0x180), ("0x200+$NODEID", 0x200), ("$NODEID + 0x1D", 0x1D), ("0x1e+$NODEID", 0x1E), ("$NODEID+29", 29), ("0xDEAD+$NODEID", 0xDEAD),
-              ("$NODEID+0xE", 0xE), ("0x80 + $NODEID", 0x80), ("0x600", None), ("1536", None)]
+              ("$NODEID+0xE", 0xE), ("0x80 + $NODEID", 0x80), ("$nodeid+0x2", 2), ("0x 10 + $NODEID", 0x10), ("0x600", None), ("1536", None)]
     bad = unknown = None
     for text, off in probes:
         r = partial_eval(folder, cv.node, cv.mod, None, {"node_id": 5, "var_type": u32, "value": text})
@@ -210,11 +215,55 @@ def run(chk):
             bad = f"`{text}` with node id 5 gives {r[1] if r[0] == 'return' else 'an exception ' + str(r[1])}; expected {want}"
             break
     if unknown:
-        chk.notes.append(f"C08.R7 _convert_variable could not be specialised ({unknown}); the pattern-level checks above stand alone")
+        chk.notes.append(f"C08.R7 _convert_variable could not be specialised ({unknown}); the pattern-level checks stand alone")
+        subs = [c for c in ast.walk(cv.node) if isinstance(c, ast.Call) and dotted(c.func) == "re.sub"]
+        if not subs:
+            chk.notes.append("C08.R7: no re.sub in _convert_variable; decided by specialisation only")
+        for c in subs:
+            p = folder.try_fold(c.args[0], sc, None)
+            ok = False
+            if isinstance(p, str):
+                try:
+                    rx = re.compile(p)
+                    ok = all(rx.sub("", s_) == want for s_, want in (("$NODEID+0X180", "0X180"), ("0X180+$NODEID", "0X180"), ("$NODEID", ""), ("0X180", "0X180")))
+                except re.error:
+                    ok = False
+            chk.check(ok, "R7", f"{E}:_convert_variable | $NODEID in both orders", cv.loc(c), f"pattern {p!r} does not strip `$NODEID+` and `+$NODEID`")
+            st = fcv.stmt_of(c)
+            g = [(src(e), p_) for e, p_ in fcv.facts_at(st)]
+            chk.check(("'$NODEID' in value", True) in g and ("node_id is not None", True) in g, "R7", f"{E}:_convert_variable | offset added when relative", cv.loc(c), f"{g}")
+            chk.check(isinstance(st, ast.Return) and fcv.is_form(st.value, "int(re.sub(PAT, '', value), 0) + node_id".replace("PAT", repr(p)), subst=False), "R7",
+                      f"{E}:_convert_variable | value = offset + node id", cv.loc(c), src(st))
     else:
         chk.check(bad is None, "R7", f"{E}:_convert_variable | $NODEID-relative values resolved (specialised for {len(probes)} spellings)", cv.loc(), bad or "")
-    norm_st = [n for n in own_nodes(cv.node) if isinstance(n, ast.Assign) and src(n.targets[0]) == "value"]
-    chk.check(any(src(n.value) == "value.replace(' ', '').upper()" for n in norm_st), "R7", f"{E}:_convert_variable | spaces removed, upper-cased", cv.loc(), "")
+    # the kind of value each data type's text becomes (binary types: bytes from hex digits; text types: the text itself;
+    # REAL: float; every other type: int), decided by specialising _convert_variable per type code
+    kinds_bad = kinds_unknown = None
+    n_types = 0
+    for tname, code in sorted(((k, v[0]) for k, v in O.DATA_TYPES.items()), key=lambda kv: kv[1]):
+        if tname in ("OCTET_STRING", "DOMAIN"):
+            text, want = "cafe01", bytes.fromhex("cafe01")
+        elif tname in ("VISIBLE_STRING", "UNICODE_STRING"):
+            text, want = "cafe01", "cafe01"
+        elif tname.startswith("REAL"):
+            text, want = "1.5", 1.5
+        else:
+            text, want = "0x10", 16
+        r = partial_eval(folder, cv.node, cv.mod, None, {"node_id": None, "var_type": code, "value": text})
+        if r[0] == "unknown":
+            kinds_unknown = f"{tname}: {r[1]}"
+            break
+        n_types += 1
+        if r != ("return", want) or type(r[1]) is not type(want):
+            kinds_bad = f"a {tname} value `{text}` becomes {r[1]!r} ({'exception' if r[0] == 'raise' else type(r[1]).__name__}); expected {want!r}"
+            break
+    if kinds_unknown:
+        chk.notes.append(f"C08.R7 _convert_variable could not be specialised per type ({kinds_unknown})")
+    else:
+        chk.check(kinds_bad is None, "R7", f"{E}:_convert_variable | kind of value per data type (specialised for {n_types} type codes)", cv.loc(), kinds_bad or "")
+    if unknown:
+        norm_st = [n for n in own_nodes(cv.node) if isinstance(n, ast.Assign) and src(n.targets[0]) == "value"]
+        chk.check(any(src(n.value) == "value.replace(' ', '').upper()" for n in norm_st), "R7", f"{E}:_convert_variable | spaces removed, upper-cased", cv.loc(), "")
     for key, attr in (("DefaultValue", "default"), ("ParameterValue", "value")):
         sts = [n for n in own_nodes(bv.node) if isinstance(n, ast.Assign) and src(n.targets[0]) == f"var.{attr}"]
         ok = len(sts) == 1 and isinstance(sts[0].value, ast.Call) and dotted(sts[0].value.func) == "_convert_variable" \
@@ -278,7 +327,7 @@ def run(chk):
                   f"{E}:import_eds | sub-index section: member attached to od[index]", ie.loc(c), f"{[src(a) for a in att]}")
         for a in att:
             g = [(fi.norm(e, subst=False), p) for e, p in fi.facts_at(fi.stmt_of(a))]
-            neg = [t for t, p in g if not p and "match is" not in t]
+            neg = [t for t, p in g if not p and "match is" not in t and not t.startswith("re.match(")]
             chk.check(not neg, "R10", f"{E}:import_eds | sub-index section: member attached unconditionally", ie.loc(a), f"attached under {g}")
     # (b) name-list sections of compact arrays
     cps = [c for c in ast.walk(ie.node) if isinstance(c, ast.Call) and dotted(c.func) == "copy_variable"]
